@@ -67,6 +67,7 @@ static int g_clock = 0; static long long g_clock_ns = 0, g_clock_tick = 0, g_clo
 static int g_entropy = 0; static uint64_t g_entropy_seed = 0, g_entropy_ctr = 0;
 static long g_budget = 0; static long g_seq = 0;
 static int g_fifo_block = 1;
+static long long g_jump_ns = 0; static long g_jump_k = -1; /* plan `clock_jump <ns> <k>`: from the k-th wall-clock read on the clock shows <ns> */
 static int g_tty = 0; /* plan `tty 1`: the consumer of stdout is a terminal */
 static int g_logfd = -1;
 static int g_sorted = 0;
@@ -291,6 +292,7 @@ static void parse_plan(char *text) {
                     } else if (!strcmp(kw, "budget")) { g_budget = atol(next_tok(&p));
                     } else if (!strcmp(kw, "fifo_block")) { g_fifo_block = atoi(next_tok(&p));
                     } else if (!strcmp(kw, "tty")) { g_tty = atoi(next_tok(&p));
+                    } else if (!strcmp(kw, "clock_jump")) { g_jump_ns = strtoll(next_tok(&p), NULL, 10); g_jump_k = atol(next_tok(&p));
                     } else die("plan: unknown keyword");
                 }
             }
@@ -818,6 +820,7 @@ char *canonicalize_file_name(const char *path) { return realpath(path, NULL); }
 /* ---------------------------------------------------------------- clock */
 static long long sim_now(void) {
     long long t = g_clock_ns + g_clock_calls * g_clock_tick;
+    if (g_jump_k >= 0 && g_clock_calls >= g_jump_k) t = g_jump_ns;
     if (g_clock_calls == 0) logline("clock realtime -> sim (first read; later reads are not logged)");
     g_clock_calls++;
     return t;
